@@ -367,3 +367,67 @@ class Result:
         return 1 if nviol else 0
 
     broken_explained_by_known = False
+
+
+# ---------------------------------------------------------------- extracted model (OCaml)
+
+OCAML = os.path.join(BUILD, "ocaml")
+
+
+def build_model():
+    """extract the model (ocaml/Extract.v) and build the driver; returns path of the binary.
+    Rebuilt only when the Coq sources, Extract.v or driver.ml are newer than the binary."""
+    with Lock("ocaml"):
+        os.makedirs(OCAML, exist_ok=True)
+        exe = os.path.join(OCAML, "avmodel")
+        srcs = [os.path.join(VERIF, "ocaml", "Extract.v"), os.path.join(VERIF, "ocaml", "driver.ml")]
+        for sub in ("Model", "Spec", "Gen"):
+            d = os.path.join(COQ, sub)
+            if os.path.isdir(d):
+                srcs += [os.path.join(d, f) for f in os.listdir(d) if f.endswith(".v")]
+        if os.path.exists(exe) and all(os.path.getmtime(s) <= os.path.getmtime(exe) for s in srcs):
+            return exe
+        deps = sorted(set("%s/%s.vo" % m for m in re.findall(r"AvraV\.(\w+)\.(\w+)", open(srcs[0]).read())))
+        ok, log = coq_make(deps)
+        if not ok:
+            raise RuntimeError("coq build of the model failed\n" + log[-3000:])
+        subprocess.run(["cp", srcs[0], os.path.join(OCAML, "Extract.v")], check=True)
+        subprocess.run(["cp", srcs[1], os.path.join(OCAML, "driver.ml")], check=True)
+        rc, out = run(["coqc", "-q", "-noglob", "-Q", COQ, "AvraV", "Extract.v"], cwd=OCAML, timeout=900)
+        if rc != 0:
+            raise RuntimeError("extraction failed\n" + out[-3000:])
+        rc, out = run(["ocamlfind", "ocamlopt", "-O2", "-w", "-a", "-package", "str", "-linkpkg", "avmodel.mli", "avmodel.ml",
+                       "driver.ml", "-o", "avmodel"], cwd=OCAML, timeout=900)
+        if rc != 0:
+            rc, out = run(["ocamlfind", "ocamlopt", "-w", "-a", "-package", "str", "-linkpkg", "avmodel.mli", "avmodel.ml",
+                           "driver.ml", "-o", "avmodel"], cwd=OCAML, timeout=900)
+        if rc != 0:
+            raise RuntimeError("ocamlopt failed\n" + out[-3000:])
+    return exe
+
+
+def model(exe, args, input=None, timeout=1800):
+    """run the extracted model; deep recursion on long lists needs an unlimited stack"""
+    cmd = "ulimit -s unlimited 2>/dev/null || ulimit -s 1000000; exec " + " ".join(
+        "'" + a.replace("'", "'\\''") + "'" for a in [exe] + list(args))
+    rc, out = run(["bash", "-c", cmd], input=input, timeout=timeout)
+    if rc != 0:
+        raise RuntimeError("model driver %s failed rc=%s\n%s" % (args, rc, out[-3000:]))
+    return out
+
+
+def setup():
+    """MANIFEST.setup_cmd: build everything from files on disk, offline"""
+    t0 = time.time()
+    os.makedirs(BUILD, exist_ok=True)
+    os.makedirs(os.path.join(BUILD, "home"), exist_ok=True)
+    rc, out = run(["./mk.sh"], cwd=COQ)
+    rc, out = run(["make", "-j%d" % NCPU], cwd=COQ, timeout=7200)
+    print(out[-3000:])
+    if rc != 0:
+        print("setup: coq build failed")
+        return 1
+    build_harness("debug")
+    build_model()
+    print("setup done in %.0fs" % (time.time() - t0))
+    return 0
